@@ -90,19 +90,23 @@ class BuildLock:
         self.f.close()
 
 
-def build_simnode(features, hook=True, quiet=True):
+def build_simnode(features, hook=True, quiet=True, dbg=False):
     """Builds sim/simnode against /repo's working tree with the given rcgen features.
-    Returns the path of a private copy of the binary."""
+    Returns the path of a private copy of the binary. dbg=True: the same optimised build with
+    debug assertions and overflow checks switched on (what `cargo test` / a dev build compiles in)."""
     os.makedirs(BIN, exist_ok=True)
-    tag = feat_tag(features, hook)
-    tdir = os.path.join(TARGET, "on" if hook else "off")
+    tag = feat_tag(features, hook) + ("-dbg" if dbg else "")
+    tdir = os.path.join(TARGET, ("on" if hook else "off") + ("-dbg" if dbg else ""))
     out = os.path.join(BIN, "simnode-" + tag)
     cmd = ["cargo", "build", "--release", "--offline", "-p", "simnode", "--target-dir", tdir]
     if features:
         cmd += ["--features", ",".join(sorted(features))]
-    with BuildLock("build-" + ("on" if hook else "off")):
+    env = cargo_env(hook)
+    if dbg:
+        env["RUSTFLAGS"] = (env["RUSTFLAGS"] + " -C debug-assertions=on -C overflow-checks=on").strip()
+    with BuildLock("build-" + ("on" if hook else "off") + ("-dbg" if dbg else "")):
         t0 = time.time()
-        p = subprocess.run(cmd, cwd=SIM, env=cargo_env(hook), stdout=subprocess.PIPE, stderr=subprocess.STDOUT, text=True)
+        p = subprocess.run(cmd, cwd=SIM, env=env, stdout=subprocess.PIPE, stderr=subprocess.STDOUT, text=True)
         if p.returncode != 0:
             raise HarnessError("build of simnode[%s] failed:\n%s" % (tag, p.stdout[-6000:]))
         shutil.copy2(os.path.join(tdir, "release", "simnode"), out + ".tmp")
@@ -295,7 +299,7 @@ def handle_violations(prop, binary, build_desc, engine, mode, batch, vseed, env_
             "original_violation": {"class": vclass, "detail": v["detail"]},
             "trace": m["trace"],
         }
-        tagname = feat_tag(build_desc.get("features", []), build_desc.get("hook", True)) + ("-shim" if build_desc.get("shim") else "")
+        tagname = feat_tag(build_desc.get("features", []), build_desc.get("hook", True)) + ("-shim" if build_desc.get("shim") else "") + ("-dbg" if build_desc.get("dbg") else "")
         rel = os.path.join("replays", "%s-%s-%s-%s.json" % (prop, tagname, mode, v["s"]))
         path = os.path.join(VERIF, rel)
         with open(path, "w") as f:
@@ -381,12 +385,17 @@ def check_c20(tier):
     evaluations = 0
     dn = 0
     n_long = 48 if tier == "quick" else 640
-    for mode, n in (("small", n_small), ("wide", n_wide), ("long", n_long)):
+    dbg_binary = build_simnode(MAIN_FEATURES, hook=True, dbg=True)
+    dbg_desc = {"features": MAIN_FEATURES, "hook": True, "dbg": True}
+    batches = [("small", n_small, binary, build_desc), ("wide", n_wide, binary, build_desc), ("long", n_long, binary, build_desc),
+               ("small+debug-assertions", n_small // 5, dbg_binary, dbg_desc), ("wide+debug-assertions", n_wide // 5, dbg_binary, dbg_desc)]
+    for label, n, binary, build_desc in batches:
+        mode = label.split("+")[0]
         b = run_batch(binary, "dn-sim", mode, tier, n, vseed)
         evaluations += len(b.runs)
         dn += b.distinct_nontrivial()
-        covs.append((mode, b))
-        samples += [{"mode": mode, "trace": s} for s in b.samples[:2]]
+        covs.append((label, b))
+        samples += [{"mode": label, "trace": s} for s in b.samples[:1]]
         if b.violations:
             u, _k = handle_violations("C20", binary, build_desc, "dn-sim", mode, b, vseed)
             total_viol += u
@@ -427,14 +436,14 @@ def run_plan(prop, plan, tier, vseed):
     results = []
     unlisted = 0
     for item in plan:
-        binary = item.get("binary") or build_simnode(item["features"], hook=True)
+        binary = item.get("binary") or build_simnode(item["features"], hook=True, dbg=bool(item.get("dbg")))
         env = dict(item.get("env") or {}) or None
         if item.get("shim"):
             env = {"LD_PRELOAD": build_shim(), "DETSYS_RAND_SEED": str(vseed)}
         b = run_batch(binary, item["engine"], item["mode"], tier, item["runs"], vseed, env_extra=env)
         results.append((item, b))
         if b.violations:
-            desc = {"features": item["features"], "hook": True, "shim": bool(item.get("shim"))}
+            desc = {"features": item["features"], "hook": True, "shim": bool(item.get("shim")), "dbg": bool(item.get("dbg"))}
             if item.get("backend"):
                 desc["cli_backend"] = item["backend"]
             u, _k = handle_violations(prop, binary, desc, item["engine"], item["mode"], b, vseed, env_extra=env)
@@ -464,6 +473,8 @@ def check_c01(tier):
         {"label": "aws_lc_rs/enum", "features": A, "engine": "sign-sim", "mode": "enum", "runs": 320 if q else 8000},
         {"label": "no-crypto/faults", "features": N, "engine": "sign-sim", "mode": "faults", "runs": 1600 if q else 30000},
         {"label": "no-crypto/enum-remote", "features": N, "engine": "sign-sim", "mode": "enum-remote", "runs": 320 if q else 8000},
+        {"label": "ring+debug-assertions/plain", "features": R, "engine": "sign-sim", "mode": "plain", "runs": 480 if q else 8000, "dbg": True},
+        {"label": "ring+debug-assertions/faults", "features": R, "engine": "sign-sim", "mode": "faults", "runs": 480 if q else 8000, "dbg": True},
     ]
     results, unlisted = run_plan("C01", plan, tier, vseed)
     evaluations = sum(len(b.runs) for _, b in results)
@@ -640,6 +651,7 @@ def check_c15(tier):
         {"label": "L1 no-crypto/histories", "features": N, "engine": "purity-hist", "mode": "default", "runs": 1200 if q else 30000},
         {"label": "L2 ring/shuttle", "features": R + ["shuttle"], "engine": "purity-shuttle", "mode": "default", "runs": 480 if q else 8000},
         {"label": "L2 no-crypto/shuttle", "features": N + ["shuttle"], "engine": "purity-shuttle", "mode": "default", "runs": 320 if q else 6000},
+        {"label": "L1 ring+debug-assertions/histories", "features": R, "engine": "purity-hist", "mode": "default", "runs": 480 if q else 8000, "dbg": True},
     ]
     results, unlisted = run_plan("C15", plan, tier, vseed)
     rep_info, u = check_replicas("C15", R, tier, 480 if q else 6000, vseed)
@@ -1060,6 +1072,17 @@ def check_c16(tier):
             doc = {"property": "C16", "kind": "build-failure", "what": "cli", "backend": backend,
                    "violation": {"class": "c16-does-not-build", "detail": detail}, "compiler_output_tail": err[-3000:]}
             unlisted += report_simple_violation("C16", os.path.join("replays", "C16-build-cli-%s.json" % backend), doc, detail)
+    # informational only: cargo features are additive, and rcgen's source lets aws-lc-rs win when
+    # both back ends are enabled (what `rustls-cert-gen --features aws_lc_rs` without
+    # --no-default-features asks for). The property's quantifier lists the back ends as
+    # alternatives, so a failure here is reported as a NOTE, not as a violation.
+    both = []
+    for extra in ([], ["pem"], ["pem", "x509-parser", "zeroize"]):
+        feats = ["ring", "aws_lc_rs"] + extra
+        ok, out = cargo_check_config(feats, hook=False)
+        both.append({"features": feats, "ok": ok})
+        if not ok:
+            log("NOTE: rcgen does not compile with both back ends enabled [%s] (outside the property's quantifier as stated; not counted)" % ",".join(feats))
     node_info = []
     all_batches = []
     xinfo = []
@@ -1109,6 +1132,7 @@ def check_c16(tier):
         "configs_checked": len(boot),
         "configs_ok": sum(1 for b in boot if b["ok"]),
         "boot": boot,
+        "both_back_ends_enabled_builds(informational, not part of the claim)": both,
         "exhaustive": True,
         "exhaustive_note": "exhaustive for the build clause only: all 24 advertised feature sets of rcgen and both CLI back ends are compiled; "
                            "agreement and exchange are seeded sampling",
@@ -1192,6 +1216,7 @@ def setup_build():
     N = ["pem", "x509-parser"]
     for feats, hook in ((R, True), (A, True), (N, True), (R + ["shuttle"], True), (N + ["shuttle"], True), (R, False)):
         build_simnode(feats, hook=hook, quiet=False)
+    build_simnode(R, hook=True, quiet=False, dbg=True)
     build_tool("clisim")
     for backend in ("ring", "aws_lc_rs"):
         cli, err = build_cli(backend)
@@ -1232,7 +1257,7 @@ def replay(path):
             raise HarnessError("CLI build failed: " + err)
         env.update(cli_env(b.get("cli_backend", "ring"), cli))
     else:
-        binary = build_simnode(b["features"], hook=b.get("hook", True))
+        binary = build_simnode(b["features"], hook=b.get("hook", True), dbg=bool(b.get("dbg")))
     if b.get("shim"):
         env.update({"LD_PRELOAD": build_shim(), "DETSYS_RAND_SEED": str(r.get("verif_seed", DEFAULT_SEED))})
     p = subprocess.run([binary, r["engine"], "exec", "--trace", path, "-v"], stdout=subprocess.PIPE, stderr=subprocess.PIPE, text=True, env=env)
